@@ -77,6 +77,7 @@ Proof.
   destruct H as (key & q1 & q2 & e & dl & Hk & Hd & He & Hdl & Hdl0 & Hev & Hq').
   injection Hev as <- _.
   unfold next_key in Hk. rewrite Hpol in Hk. destruct (q_complete q) eqn:Ec; [discriminate|].
+  destruct (r_empty_guard all_rep && (zlen (q_ordering q) =? 0)); [discriminate|].
   assert (Hcore : forall ip' pm', q1 = set_state q (q_data q) (q_ordering q) (q_i q) ip' false (q_choices q) pm' ->
      q_ordering q' = q_ordering q /\ q_complete q' = all_done (q_data q') /\ q_iperm q' = ip' /\ q_perms q' = pm').
   { intros ip' pm' ->. unfold decrement_key in Hd. prj. rewrite Hpol in Hd.
